@@ -265,3 +265,37 @@ def r11d(ctx: Ctx) -> list[Ob]:
                     else:
                         obs.append(viol("R11d", f.qualname, inst, f"`{ast.unparse(s)[:60]}` shifts by the maximum of the *whole* tensor ({ast.unparse(mx)[:40]}): rows far below it underflow and the following normalisation is 0/0", loc))
     return obs
+
+
+def r11e(ctx: Ctx) -> list[Ob]:
+    """R11e -- the complex log-space semiring takes logarithms with the repository's safe complex
+    logarithm (``csafelog``), in its stable reduce and in every morphism *into* it: the plain complex
+    ``torch.log`` has the gradient 1/conj(z), which is nan/inf at an exactly-zero unit (a one-hot
+    embedding row, a polynomial at a root) although the circuit output is finite and non-zero."""
+    obs: list[Ob] = []
+    cplx = None
+    for c in semirings(ctx):
+        if "Complex" in c.name:
+            cplx = c
+    if cplx is None:
+        return [unres("R11e", "cirkit.backend.torch.semiring", "complex-semiring", "no complex semiring class found")]
+    sites: list[tuple[str, str, ast.AST]] = []
+    f = ctx.repo.lookup(cplx, "apply_reduce")
+    if f is not None and not f.is_abstract:
+        sites.append((f.qualname, f.loc, f.node))
+    for src, dst, fn, loc in _morphisms(ctx):
+        if dst is not None and dst.qualname == cplx.qualname and src is not None:
+            fam_src = family_of(ctx, src)[1]
+            if fam_src == "linear":
+                sites.append((f"cirkit.backend.torch.semiring:{src.name}->{dst.name}", loc, fn))
+    for q, loc, node in sites:
+        names = _called_names(node)
+        plain = [n for n in names if n == "log"]
+        safe = [n for n in names if n in ("csafelog", "safelog")]
+        if plain:
+            obs.append(viol("R11e", q, "safe-log", "takes a plain (complex) logarithm where the complex semiring's other sites use csafelog: the gradient is nan at an exactly-zero unit", loc))
+        elif safe:
+            obs.append(ok("R11e", q, "safe-log", "logarithm taken with csafelog", loc))
+        else:
+            obs.append(unres("R11e", q, "safe-log", "no logarithm found at this site", loc))
+    return obs
